@@ -59,6 +59,8 @@ pub enum Op {
     SetEdgeProp { s: u64, t: &'static str, d: u64, k: &'static str, v: Val },
     RemoveEdgeProp { s: u64, t: &'static str, d: u64, k: &'static str },
     SetVector { e: u64, v: [i8; 2] },
+    /// a vector of ANOTHER dimension than the ones SetVector stores
+    SetVector3 { e: u64, v: [i8; 3] },
     /// Several write operations in one transaction.
     Tx(Vec<Op>),
     /// The same writes, but the transaction is dropped instead of committed.
@@ -99,6 +101,7 @@ impl Op {
             Op::SetEdgeProp { .. } => "SetEdgeProp".into(),
             Op::RemoveEdgeProp { .. } => "RemoveEdgeProp".into(),
             Op::SetVector { .. } => "SetVector".into(),
+            Op::SetVector3 { .. } => "SetVector3".into(),
             Op::Tx(ops) => format!("Tx[{}]", ops.iter().map(|o| o.kind()).collect::<Vec<_>>().join("+")),
             Op::Abandon(ops) => format!("Abandon[{}]", ops.iter().map(|o| o.kind()).collect::<Vec<_>>().join("+")),
             Op::Compact => "Compact".into(),
@@ -208,7 +211,7 @@ impl GraphModel {
             Op::RemoveNodeProp { e, k } => self.nodes.get(e).is_some_and(|n| n.props.contains_key(*k)),
             Op::SetEdgeProp { s, t, d, .. } => self.edges.contains_key(&(*s, t.to_string(), *d)),
             Op::RemoveEdgeProp { s, t, d, k } => self.edges.get(&(*s, t.to_string(), *d)).is_some_and(|e| e.props.contains_key(*k)),
-            Op::SetVector { e, .. } => self.nodes.contains_key(e),
+            Op::SetVector { e, .. } | Op::SetVector3 { e, .. } => self.nodes.contains_key(e),
             Op::Tx(ops) | Op::Abandon(ops) => {
                 let mut m = self.clone();
                 for o in ops {
@@ -274,6 +277,7 @@ impl GraphModel {
             Op::SetVector { e, v } => {
                 self.vectors.insert(*e, *v);
             }
+            Op::SetVector3 { .. } => {}
             Op::Tx(ops) => {
                 for o in ops {
                     self.apply(o);
@@ -753,6 +757,9 @@ impl Sut {
                     }
                     Op::SetVector { e, v } => {
                         tx.set_vector(get(*e, &local)?, vec![v[0] as f32, v[1] as f32]).map_err(|e| format!("set_vector: {e}"))?;
+                    }
+                    Op::SetVector3 { e, v } => {
+                        tx.set_vector(get(*e, &local)?, vec![v[0] as f32, v[1] as f32, v[2] as f32]).map_err(|e| format!("set_vector: {e}"))?;
                     }
                     other => return Err(format!("harness: {} is not a write op", other.kind())),
                 }
